@@ -522,4 +522,19 @@ def proof_part(run, gens=("tables",), leanchecker=False):
     return ok
 
 
-GENERATORS = {"tables": regen_tables}
+def regen_parser_exits():
+    """Gen/ParserExits.lean: every `return url;` of parse_url_impl with its syntactic context."""
+    sys.path.insert(0, str(VERIF / "gen"))
+    import parser_exits
+    try:
+        ex = parser_exits.extract(REPO / "src" / "parser.cpp")
+    except Exception as e:  # noqa
+        ex = None
+    if not ex:
+        return "gen:parser_exits: parse_url_impl not found / not parseable in src/parser.cpp"
+    with Lock("lake"):
+        write_if_changed(LEAN / "AdaVerif" / "Gen" / "ParserExits.lean", parser_exits.to_lean(ex))
+    return None
+
+
+GENERATORS = {"tables": regen_tables, "parser_exits": regen_parser_exits}
